@@ -91,8 +91,123 @@ pub(crate) fn mon_write_isized(
 }
 
 // ---------------------------------------------------------------------------------------------
+// symbolic / native mode. Stubs are not applied when a counterexample is replayed natively
+// (cargo kani playback): `is_symbolic()` is stubbed to `true` in every harness, so it answers
+// `false` exactly in a native replay. Harnesses that rely on monitor or oracle stubs use it to
+// run the equivalent concrete check (real bytes, real CRC) when replayed.
+// ---------------------------------------------------------------------------------------------
+pub(crate) fn is_symbolic() -> bool {
+    false
+}
+pub(crate) fn is_symbolic_yes() -> bool {
+    true
+}
+
+/// needed_bytes replaced by a constant width (see `nb_range`): the characterisation of the real
+/// `needed_bytes` is a separate obligation (c14_needed_bytes).
+pub(crate) static mut NB_WIDTH: usize = 1;
+pub(crate) fn needed_bytes_const<T>(_val: T) -> ByteSize
+where
+    T: std::cmp::PartialOrd + std::ops::Shr<Output = T> + From<u8>,
+{
+    byte_size(unsafe { NB_WIDTH })
+}
+
+pub(crate) fn byte_size(w: usize) -> ByteSize {
+    match w {
+        1 => ByteSize::U1,
+        2 => ByteSize::U2,
+        3 => ByteSize::U3,
+        4 => ByteSize::U4,
+        5 => ByteSize::U5,
+        6 => ByteSize::U6,
+        7 => ByteSize::U7,
+        _ => ByteSize::U8,
+    }
+}
+
+/// true iff needed_bytes(v) == w according to its specification
+pub(crate) fn in_width_range(v: u64, w: usize) -> bool {
+    let hi_ok = w >= 8 || v < (1u64 << (8 * w));
+    let lo_ok = w == 1 || v >= (1u64 << (8 * (w - 1)));
+    hi_ok && lo_ok
+}
+
+/// Bitwise CRC-32C as pinned by the format (poly 0x1EDC6F41, init 0xFFFFFFFF, no reflection, no
+/// xorout), independent of the `crc` crate. Used natively to patch valid CRCs into buffers and
+/// symbolically as the reference of C05-K1.
+pub(crate) fn ref_crc(data: &[u8]) -> u32 {
+    let mut crc: u32 = 0xFFFF_FFFF;
+    let mut i = 0;
+    while i < data.len() {
+        crc ^= (data[i] as u32) << 24;
+        let mut k = 0;
+        while k < 8 {
+            crc = if crc & 0x8000_0000 != 0 { (crc << 1) ^ 0x1EDC_6F41 } else { crc << 1 };
+            k += 1;
+        }
+        i += 1;
+    }
+    crc
+}
+
+/// In a native replay, make `buf[off..off+len+4]` a block with a valid (or deliberately invalid)
+/// CRC so that the real `assert_slice_crc` answers like the oracle did. No-op symbolically.
+pub(crate) fn native_set_crc(buf: &mut [u8], off: usize, len: usize, valid: bool) {
+    if is_symbolic() {
+        return;
+    }
+    let c = ref_crc(&buf[off..off + len]);
+    let c = if valid { c } else { !c };
+    buf[off + len..off + len + 4].copy_from_slice(&c.to_be_bytes());
+}
+
+// ---------------------------------------------------------------------------------------------
 // helpers
 // ---------------------------------------------------------------------------------------------
+
+/// Store an individual nondeterministic byte in every cell (keeps other cells constant for CBMC).
+pub(crate) fn fill_any(buf: &mut [u8]) {
+    let mut i = 0;
+    while i < buf.len() {
+        buf[i] = kani::any();
+        i += 1;
+    }
+}
+
+/// Reference little-endian store of the `w` low bytes of `v` at `buf[pos..]`.
+pub(crate) fn put_le(buf: &mut [u8], pos: usize, v: u64, w: usize) {
+    let mut i = 0;
+    while i < w {
+        buf[pos + i] = (v >> (8 * i)) as u8;
+        i += 1;
+    }
+}
+
+/// Reference encoding of a cluster tail, written from the pinned layout (shares no code with the
+/// library): [compression, width, blob count (u16 LE)] then stored size, data size and the
+/// first n-1 cumulative offsets, each `w` bytes little endian. Returns the length.
+pub(crate) fn ref_cluster_tail(
+    out: &mut [u8],
+    comp: u8,
+    w: usize,
+    raw: u64,
+    offs: &[u64],
+) -> usize {
+    let n = offs.len();
+    out[0] = comp;
+    out[1] = w as u8;
+    out[2] = n as u8;
+    out[3] = (n >> 8) as u8;
+    put_le(out, 4, raw, w);
+    put_le(out, 4 + w, offs[n - 1], w);
+    let mut i = 0;
+    while i + 1 < n {
+        put_le(out, 4 + (2 + i) * w, offs[i], w);
+        i += 1;
+    }
+    4 + (n + 1) * w
+}
 
 /// Forget an error value instead of dropping it (io::Error drop glue is expensive to encode).
 pub(crate) fn forget<T>(v: T) {
@@ -130,6 +245,7 @@ macro_rules! vharness {
         #[kani::proof]
         #[kani::stub(std::fmt::format, crate::verif_common::stub_format)]
         #[kani::stub(std::backtrace::Backtrace::capture, crate::verif_common::stub_bt_capture)]
+        #[kani::stub(crate::verif_common::is_symbolic, crate::verif_common::is_symbolic_yes)]
         $(#[$m])*
         fn $name() $body
     };
